@@ -1,11 +1,12 @@
 ----------------------------- MODULE GenPersist -----------------------------
 (* Request sequences for the persistence driver: the store requests of MC_Store annotated with a *)
 (* fault annotation for the backing-store call the request will make (none / fail / crash before  *)
-(* or after the backing-store write) plus stand-alone crashes and load failures.                  *)
+(* or after the backing-store write) plus stand-alone crashes, load failures and    *)
+(* restarts whose first access is made by two clients at once (crashRace).                 *)
 EXTENDS MC_Store
 VARIABLES ann
 gvars == <<store, res, hist, ann>>
-Faults == <<"none", "none", "none", "none", "none", "none", "fail", "crashBefore", "crashAfter", "crashBetween", "loadFail">>
+Faults == <<"none", "none", "none", "none", "none", "none", "fail", "crashBefore", "crashAfter", "crashBetween", "loadFail", "crashRace", "crashRace">>
 PInit == Init /\ ann = <<>>
 PNext == /\ Len(hist) < GenDepth
          /\ \E r \in {GenReq} : (\E cls \in Outcomes(r) : Do(r, cls))
